@@ -43,7 +43,7 @@ PLAN = {
                       ("dead_remote_engine_ops4", dict(subs="SR", objs="O1", bc="B1", ops=4, ev=1, stop=True, tg="LocalTargets", sd="NoSenders", rs="R1"))],
             "thorough": [("dead_ops4", dict(subs="SM", objs="O1", bc="B1", ops=4, ev=2, stop=True, tg="AllTargets", sd="BothSenders")),
                          ("dead_ops5_small", dict(subs="SM", objs="O1", bc="B1", ops=5, ev=2, stop=True, tg="SomeTargets", sd="NoSenders")),
-                         ("dead_req_nil_ops4", dict(subs="SM", objs="O1", bc="B1", ops=4, ev=1, stop=True, tg="AllTargets", sd="AllSenders", pl="AllPayloads")),
+                         ("dead_req_nil_ops4", dict(subs="S1", objs="O1", bc="B1", ops=4, ev=1, stop=True, tg="AllTargets", sd="ReqSenders", pl="AllPayloads")),
                          ("dead_remote_engine_ops5", dict(subs="SR", objs="O1", bc="B1", ops=5, ev=1, stop=True, tg="LocalTargets", sd="BothSenders", rs="R1"))]},
 }
 REGRESSION = {
